@@ -612,6 +612,16 @@ def gen_c09(ctx):
         if c['mem']: c['lwfrac'] = 1.6
         c['pmode'] = rng.choice([0, 1, 4]); c['pert'] = rng.randrange(1, 1 << 30)
         items.append(({'variant': 'plain', 'prec': rng.choice(PRECS)}, c))
+    # large forests: a few long chains (workers requesting U storage at a high rate) next to thousands of singleton supernodes that
+    # only note where U currently ends; many threads, the same factorization repeated and validated each time.  Windows of a few
+    # instructions between two reads of shared allocation state are only hit at this event rate.
+    NB = 48 if ctx.quick else 600
+    for i in range(NB):
+        k = rng.choice([2, 4, 6]); L = rng.choice([200, 400, 800]); nd = rng.choice([1500, 3000])
+        c = {'cmd': 'gstrf', 'fam': 'chainsdiag', 'nchains': k, 'chainlen': L, 'n': k * L + nd, 'seed': rng.randrange(1, 1 << 30), 'vals': 'generic', 'dom': 'row',
+             'np': rng.choice([4, 8, 8, 16]), 'ord': 0, 'w': rng.choice([1, 2, 8]), 'relax': rng.choice([1, 2, 4]), 'maxsup': 8, 'rowblk': 200, 'colblk': 100,
+             'oracle': 0, 'pmode': 0, 'reps': 12 if ctx.quick else 30, 'repvalidate': 1}
+        items.append(({'variant': 'plain', 'prec': rng.choice(PRECS), 'per_process': True, 'timeout_scale': 4.0, 'dump': False}, c))
     return items
 
 PROPS['C09'] = dict(gen=gen_c09, relevant=('C09|', 'C08|factors-malformed'), counters=EV_COUNTERS + ('nrefact',), nontrivial=lambda r: nontrivial_factor(r) or (r.get('result') or {}).get('nrefact', 0) >= 1, batch=30,
